@@ -401,6 +401,8 @@ pub enum E {
     Trio(String, String, String),
     St { a: i32, b: Option<String> },
     Nest(Box<Inner>),
+    /// table-valued fields declared before scalar ones (TOML writes the scalars first)
+    Rec { inner: Inner, list: Vec<Inner>, m: BTreeMap<String, i32>, n: i32, s: String },
 }
 
 #[derive(Serialize, Deserialize, Debug, Clone)]
@@ -577,7 +579,8 @@ pub fn g_inner(t: &mut Tape) -> Inner {
     Inner { x: g_i32(t), y: if t.chance(1, 2) { Some(g_string(t)) } else { None } }
 }
 pub fn g_e(t: &mut Tape) -> E {
-    match t.below(10) {
+    match t.below(11) {
+        10 => E::Rec { inner: g_inner(t), list: g_vec(t, 2, g_inner), m: g_map(t, 2, g_i32), n: g_i32(t), s: g_string(t) },
         8 => E::Pair(gen_int(t), gen_int(t)),
         9 => E::Trio(g_string(t), g_string(t), g_string(t)),
         0 => E::Unit,
